@@ -29,7 +29,7 @@ PROPS = {
                                         'the file-level theorem assumes the written text is shorter than the 64 KiB scanner limit (all tags together stay below 27 KiB)'],
     },
     'C04': {
-        'props': ['theories/Props/C04.v'], 'deps': READER_DEPS + VERIFY_DEPS,
+        'props': ['theories/Props/C04.v'], 'deps': READER_DEPS + VERIFY_DEPS + ['theories/Theory/ReaderTotal.v', 'theories/Theory/ScanSpec.v', 'theories/Theory/Segments.v', 'theories/Theory/SegmentsGen.v'],
         'streams': ['l4-reader'],
         'trusted_base': READER_TB + GOV_TB + ['Spec/Faim.v faim_markers'],
         'assumptions': COMMON_ASSUME,
@@ -47,7 +47,7 @@ PROPS = {
         'assumptions': COMMON_ASSUME + ['separator independence is proved for texts below the 64 KiB token limit whose segments hold no further brace and no line break (what the writer emits for FAIM values); runs of line breaks (any concatenation of LF and CRLF) before / between / after the segments are proved irrelevant as well; a lone CR or other stray bytes between segments are decided on the implementation by stream l5-props'],
     },
     'C02': {
-        'props': ['theories/Props/C02.v'], 'deps': READER_DEPS + CODEC_DEPS + ['theories/Theory/WriterFacts.v', 'theories/Model/Writer.v', 'gen/Writer.v', 'theories/Theory/Segments.v', 'theories/Theory/FileRoundTripFull.v'],
+        'props': ['theories/Props/C02.v'], 'deps': READER_DEPS + CODEC_DEPS + ['theories/Theory/WriterFacts.v', 'theories/Model/Writer.v', 'gen/Writer.v', 'theories/Theory/Segments.v', 'theories/Theory/FileRoundTripFull.v', 'theories/Theory/ElementValues.v'],
         'streams': ['l5-props', 'l5-reread', 'l2-tags'],
         'trusted_base': READER_TB + ['translator reading of writer.go and of the 60 Parse/Format functions, tied by streams l2-tags / l3-write / l4-reader'],
         'assumptions': COMMON_ASSUME + ['the stabilisation statement (second read equals first read) is decided on the implementation by streams l5-props (read-write-read) and l5-reread (over-width, blank-padded, inner-blank elements); the theorems cover: an accepted text yields a valid message, which the writer does not refuse'],
@@ -104,7 +104,7 @@ PROPS = {
                                         'name agreement is proved for the 29 message elements outside the recorded list of 31; those 31 are recorded findings (Findings/C14.v)'],
     },
     'C15': {
-        'props': ['theories/Props/C15.v'], 'deps': READER_DEPS,
+        'props': ['theories/Props/C15.v'], 'deps': READER_DEPS + ['theories/Theory/ReaderTotal.v', 'theories/Theory/ScanSpec.v', 'theories/Theory/Segments.v', 'theories/Theory/SegmentsGen.v'],
         'streams': ['l5-props', 'l4-reader'],
         'trusted_base': READER_TB,
         'assumptions': COMMON_ASSUME,
